@@ -321,7 +321,7 @@ def main_check(pid, tier):
     status = 0
     reported = 0
     for cls, (i, v) in sorted(new.items())[:3]:
-        scn = mod.generate(gen.rng_for(seed, pid, i), tier)
+        scn = v.get("scenario") or mod.generate(gen.rng_for(seed, pid, i), tier)
         small, used = minimise(mod, scn, cls, budget=int(os.environ.get("VERIF_SHRINK", "400")))
         classes, res = execute_classes(mod, small)
         os.makedirs(os.path.join(VERIF, "replays"), exist_ok=True)
@@ -334,7 +334,7 @@ def main_check(pid, tier):
                     "seed": seed,
                     "index": i,
                     "violation_class": list(cls),
-                    "violation": vv[0] if vv else v,
+                    "violation": {k: x for k, x in (vv[0] if vv else v).items() if k != "scenario"},
                     "digest": res.get("digest"),
                     "shrink_executions": used,
                     "scenario": small,
